@@ -32,6 +32,14 @@ import (
 // represented by the consumer standing in front of that call. Because sync.Once admits no
 // other interleaving between the two goroutines, no behaviour is lost. SliceMap consumes
 // everything in one call and cannot be held at a boundary: it runs with Prefetch(0).
+//
+// Two further classes: (1) the consumer that checkpoints and wipes - at rows chosen with the
+// script it takes Iter.PageState(), keeps a copy and overwrites the returned slice in place
+// (likewise the []byte it scanned, the custom payload and the warnings of the page); the
+// copy must be what the node sent, and the request for the following page must still carry,
+// byte for byte, the state the node sent (C15/next-page-wrong-state where it arrives);
+// (2) the node that pages although no page size was sent (Query.PageSize(0), or a session
+// with ClusterConfig.PageSize 0), and the single page although one was sent.
 
 func init() {
 	register(&Scenario{
@@ -40,7 +48,7 @@ func init() {
 		Run:        runPage,
 		Real:       []string{"gocql Session/Query/Iter/nextIter/Scanner/helpers (SliceMap, MapScan), queryExecutor, pool, Conn, framer (real code)", "Go runtime scheduler, channels, timers (fake clock)"},
 		Stub:       []string{"Cassandra node (scripted pages + cqlspec codec)", "TCP (simnet)", "clock (testing/synctest)"},
-		Rule:       "one run = one seeded schedule of 1-4 tasks x 1-4 paged queries (1-6 pages of 0-8 rows, opaque/binary paging states, page size, prefetch, prepared or not, metadata skipped or not, Scan/Scanner/MapScan/SliceMap consumer or manual paging) whose every row step, page reply delivery, park and fault is a tape choice; distinct = distinct canonical-log fingerprint; non-trivial = at least one query of two or more pages completed",
+		Rule:       "one run = one seeded schedule of 1-4 tasks x 1-4 paged queries (1-6 pages of 0-8 rows, opaque/binary paging states, page size, prefetch, prepared or not, metadata skipped or not, Scan/Scanner/MapScan/SliceMap consumer or manual paging, session with or without a page size, consumer that wipes the page state / scanned bytes / payload it was handed) whose every row step, page reply delivery, park and fault is a tape choice; distinct = distinct canonical-log fingerprint; non-trivial = at least one query of two or more pages completed",
 	})
 }
 
@@ -130,6 +138,21 @@ type pageScript struct {
 	abandonAt                 int // >0: the first iteration stops after this many rows, just behind a page switch
 	faultGen                  int // which execution the injected failure hits
 
+	// a consumer that checkpoints and then wipes what the driver hands out: it calls
+	// Iter.PageState(), keeps a private copy and overwrites the returned slice in place
+	// (wipePat); the same for the byte slices it scanned and for the custom payload and the
+	// warnings of the page (Iter.GetCustomPayload / Iter.Warnings return the Iter's storage).
+	// All positions are drawn with the script (root goroutine).
+	wipe       bool
+	wipePat    byte
+	wipeAtIter bool           // right after Iter() returned, before any row (every consumer)
+	wipeRows   map[int]string // index into expect -> "first-row" / "middle-row" / "last-row": after that row came back (Scan, MapScan)
+	wipeBlob   bool           // column v is scanned into a []byte that is wiped after every row (Scan, Scanner)
+	respExtras bool           // the node adds a custom payload and a warning to every page (v4+)
+	// what the query's page size is when the caller set none: the session's (0 = the session
+	// was configured without paging)
+	sessPageSize int
+
 	// guarded by pageRun.mu: written by the tasks, read by the root goroutine
 	seen   int
 	inCall bool
@@ -152,13 +175,14 @@ type pageExec struct {
 	failedPage int // first page whose fetch was made to fail (-1 none)
 	latePage   int // first page whose reply came only after the request timeout (-1 none)
 	reqLog     string
+	maxReq     int // highest page the node has been asked for (-1 none)
 }
 
 // newExec starts the next execution of s (task goroutine, or the root before the tasks run).
 func (pr *pageRun) newExec(s *pageScript) *pageExec {
 	pr.mu.Lock()
 	defer pr.mu.Unlock()
-	g := &pageExec{idx: len(s.execs), requested: map[int]bool{}, failedPage: -1, latePage: -1}
+	g := &pageExec{idx: len(s.execs), requested: map[int]bool{}, failedPage: -1, latePage: -1, maxReq: -1}
 	s.execs = append(s.execs, g)
 	s.cur = g
 	s.seen = 0
@@ -214,11 +238,14 @@ func pageState(tp *kernel.Tape, token string, next int) []byte {
 	return plain
 }
 
-func (pr *pageRun) drawScript(tp *kernel.Tape, ti, oi, qid, proto int) *pageScript {
-	s := &pageScript{token: fmt.Sprintf("tok-%d-%d", ti, oi), qid: qid, faultPage: -1, boundary: map[int]bool{}}
+func (pr *pageRun) drawScript(tp *kernel.Tape, ti, oi, qid, proto, sessPageSize int) *pageScript {
+	s := &pageScript{token: fmt.Sprintf("tok-%d-%d", ti, oi), qid: qid, faultPage: -1, boundary: map[int]bool{}, sessPageSize: sessPageSize}
 	s.stmt = "ECHO '" + s.token + "'"
 	nPages := 1 + tp.Next(6)
-	// page size: not set (session default 5000), 1, 5, 5000, 0 (no page size on the wire)
+	// page size: not set (the session's: 5000, or 0 in a session configured without paging),
+	// 1, 5, 5000, 0 (no page size on the wire). The number of pages does not depend on it: a
+	// node with a page cap pages although it was not asked to, and one page may be all there
+	// is although a page size was sent
 	switch tp.Next(5) {
 	case 1:
 		s.pageSizeSet, s.pageSize = true, 1
@@ -353,9 +380,64 @@ func (pr *pageRun) drawScript(tp *kernel.Tape, ti, oi, qid, proto int) *pageScri
 		s.speculative = true
 		pr.k.Fault("page.idempotent-with-speculative-policy")
 	}
+	// the consumer that checkpoints and wipes (0 = it only reads)
+	if tp.Chance(1, 3) {
+		s.wipe = true
+		s.wipeRows = map[int]string{}
+		s.wipePat = []byte{0x00, 0xff}[tp.Next(2)]
+		s.wipeAtIter = tp.Chance(1, 2)
+		base := 0
+		for p, rows := range s.pages {
+			if s.manual && p != s.manualPage {
+				continue
+			}
+			if n := len(rows); n > 0 {
+				// bit 0: after the first row of the page, bit 1: a middle row, bit 2: the last
+				// row (the page is used up, the next call switches pages)
+				m := tp.Next(8)
+				if m&2 != 0 {
+					s.wipeRows[base+n/2] = "middle-row"
+				}
+				if m&4 != 0 {
+					s.wipeRows[base+n-1] = "last-row"
+				}
+				if m&1 != 0 {
+					s.wipeRows[base] = "first-row"
+				}
+			}
+			base += len(rows)
+		}
+		s.wipeBlob = tp.Chance(1, 2)
+		s.respExtras = proto >= 4 && tp.Chance(1, 2)
+	}
 	pr.scripts[s.token] = s
 	pr.newExec(s)
 	return s
+}
+
+// effPageSize is the page size the query runs with.
+func (s *pageScript) effPageSize() int {
+	if s.pageSizeSet {
+		return s.pageSize
+	}
+	return s.sessPageSize
+}
+
+// pageOf returns the page row idx (index into expect) belongs to.
+func (s *pageScript) pageOf(idx int) int {
+	if s.manual {
+		return s.manualPage
+	}
+	p := 0
+	for s.cumEnd[p] <= idx {
+		p++
+	}
+	return p
+}
+
+// wiped returns what a slice that held b holds after the consumer wiped it.
+func (s *pageScript) wiped(b []byte) []byte {
+	return bytes.Repeat([]byte{s.wipePat}, len(b))
 }
 
 func (s *pageScript) describe() string {
@@ -380,6 +462,18 @@ func (s *pageScript) describe() string {
 	}
 	if s.reexec {
 		f += fmt.Sprintf(" reexec=%s abandon=%d faultexec=%d", pageConsNames[s.consumer2], s.abandonAt, s.faultGen)
+	}
+	if !s.pageSizeSet {
+		ps = fmt.Sprintf("default(%d)", s.sessPageSize)
+	}
+	if s.wipe {
+		var at []string
+		for i := range s.expect {
+			if w, ok := s.wipeRows[i]; ok {
+				at = append(at, fmt.Sprintf("%d:%s", i, w))
+			}
+		}
+		f += fmt.Sprintf(" wipe=%#02x afteriter=%v rows=[%s] blob=%v extras=%v", s.wipePat, s.wipeAtIter, strings.Join(at, ","), s.wipeBlob, s.respExtras)
 	}
 	return fmt.Sprintf("%s rows=[%s] pagesize=%s prefetch=%s prepared=%v noskip=%v consumer=%s%s%s",
 		s.token, strings.Join(rows, ","), ps, pf, s.prepared, s.noSkip, pageConsNames[s.consumer], m, f)
@@ -445,7 +539,13 @@ func (pr *pageRun) app(sc *node.SConn, rec *node.ReqRec) {
 		return
 	}
 
+	pr.mu.Lock()
+	inCall, g := s.inCall, s.cur
+	pr.mu.Unlock()
+
 	// ---- which page is asked for ----
+	// byState is keyed by the bytes of the state: a state that differs in a single byte from
+	// every state handed out is not found
 	page := 0
 	if rq.Params.HasPagingState {
 		ref, ok := pr.byState[string(rq.Params.PagingState)]
@@ -454,17 +554,29 @@ func (pr *pageRun) app(sc *node.SConn, rec *node.ReqRec) {
 			if ok {
 				whose = fmt.Sprintf("it is the state page %d of %s carried", ref.page-1, ref.token)
 			}
-			k.Violate("C15", "C15/wrong-paging-state", "request for %s carries the paging state %q: %s (states this query handed out: %s)", token, rq.Params.PagingState, whose, s.statesText())
+			if !ok && !s.manual && len(g.reqs) > 0 {
+				// the request follows a page of an automatic execution: it must carry, byte for
+				// byte, the state that page carried
+				prev := g.reqs[len(g.reqs)-1].page
+				var want []byte
+				if prev < len(s.states) {
+					want = s.states[prev]
+				}
+				got := rq.Params.PagingState
+				how := ""
+				if s.wipe && len(got) > 0 && len(got) == len(want) && bytes.Equal(got, s.wiped(want)) {
+					how = fmt.Sprintf(": the same length, every byte %#02x, which is what the consumer wrote over the slice Iter.PageState() had returned after keeping a copy", s.wipePat)
+				}
+				k.Violate("C15", "C15/next-page-wrong-state", "query %s: the request that follows page %d carries the paging state %q, page %d carried %q%s (states this query handed out: %s)", token, prev, got, prev, want, how, s.statesText())
+			} else {
+				k.Violate("C15", "C15/wrong-paging-state", "request for %s carries the paging state %q: %s (states this query handed out: %s)", token, rq.Params.PagingState, whose, s.statesText())
+			}
 			cl.SendError(sc, rec, cqlspec.ErrInvalid, "bad paging state", node.Hold)
 			return
 		}
 		page = ref.page
 	}
 	k.Rec("page-req %s p%d conn=%s", token, page, sc.C.Name)
-
-	pr.mu.Lock()
-	inCall, g := s.inCall, s.cur
-	pr.mu.Unlock()
 	req := &pageReq{s: s, g: g, page: page, sc: sc, recvAt: k.SimTime(), async: !inCall}
 	which := ""
 	if g.idx > 0 {
@@ -500,6 +612,20 @@ func (pr *pageRun) app(sc *node.SConn, rec *node.ReqRec) {
 			k.Violate("C15", "C15/re-executed-query-request-differs", "query %s%s: its first request differs from the first request of the first execution: %s", token, which, d)
 		}
 	}
+	if !s.manual && len(g.reqs) > 0 {
+		// pages are asked for one after the other, each with the state of the one before
+		if prev := g.reqs[len(g.reqs)-1].page; page != prev+1 && prev < s.last() {
+			k.Violate("C15", "C15/next-page-wrong-state", "query %s%s: the request that follows page %d carries the paging state %q, which names page %d; page %d carried %q (requests so far: %s)", token, which, prev, rq.Params.PagingState, page, prev, s.states[prev], g.reqsText())
+		}
+	}
+	if !s.manual && !rq.Params.HasPageSize {
+		// the client asked for no paging; this node pages all the same
+		if page > 0 {
+			k.Probe("next-page-requested-without-page-size")
+		} else if s.last() > 0 {
+			k.Probe("node-pages-although-no-page-size-was-sent")
+		}
+	}
 	if g.first == nil {
 		g.first = rq
 	}
@@ -507,6 +633,9 @@ func (pr *pageRun) app(sc *node.SConn, rec *node.ReqRec) {
 	g.reqs = append(g.reqs, req)
 	pr.mu.Lock()
 	g.reqLog = g.reqsText()
+	if page > g.maxReq {
+		g.maxReq = page
+	}
 	pr.mu.Unlock()
 	if page >= len(s.pages) {
 		cl.SendError(sc, rec, cqlspec.ErrInvalid, "page out of range", node.Hold)
@@ -552,7 +681,12 @@ func (pr *pageRun) app(sc *node.SConn, rec *node.ReqRec) {
 	for _, r := range s.pages[page] {
 		data = append(data, []cqlspec.Cell{{Bytes: cqlspec.EncInt(int32(r.id))}, {Bytes: cqlspec.EncText(r.v)}})
 	}
-	req.reply = cl.Send(sc, rec, &cqlspec.Response{Op: cqlspec.OpResult, Kind: cqlspec.KindRows, Rows: meta, RowData: data}, node.Hold, fmt.Sprintf("ROWS %s p%d", token, page))
+	resp := &cqlspec.Response{Op: cqlspec.OpResult, Kind: cqlspec.KindRows, Rows: meta, RowData: data}
+	if s.respExtras && rq.Header.Version >= 4 {
+		resp.Warnings = []string{fmt.Sprintf("warning of %s p%d", token, page)}
+		resp.CustomPayload = map[string][]byte{"page": []byte(fmt.Sprintf("%s/p%d", token, page)), "z": {0, 0xff, byte(page)}}
+	}
+	req.reply = cl.Send(sc, rec, resp, node.Hold, fmt.Sprintf("ROWS %s p%d", token, page))
 	pr.open = append(pr.open, req)
 }
 
@@ -879,6 +1013,20 @@ func (pr *pageRun) iterate(t *kernel.Task, s *pageScript, g *pageExec, q *gocql.
 	pr.setInCall(s, false)
 	k.Rec("iter %s x%d returned numrows=%d", s.token, g.idx+1, iter.NumRows())
 
+	// the consumer that checkpoints and wipes: wiped[p] = it has overwritten the state page p
+	// exposed; emptyAtIter = right after Iter() no state was exposed although the first page
+	// carries one, which is right only if that page failed (decided at the end)
+	wiped := map[int]bool{}
+	emptyAtIter := false
+	firstPage := 0
+	if s.manual {
+		firstPage = s.manualPage
+	}
+	if s.wipe && s.wipeAtIter {
+		emptyAtIter = pr.checkpoint(s, g, iter, firstPage, "after-iter", wiped)
+	}
+	var vb []byte // the consumer's own buffer for column v, reused from row to row
+
 	var got []pageRow
 	var err error
 	complete, abandoned := false, false
@@ -905,7 +1053,14 @@ func (pr *pageRun) iterate(t *kernel.Task, s *pageScript, g *pageExec, q *gocql.
 			var r pageRow
 			var ok bool
 			pr.setInCall(s, true)
-			if consumer == pageConsScan {
+			if consumer == pageConsScan && s.wipe && s.wipeBlob {
+				if ok = iter.Scan(&r.id, &vb); ok {
+					r.v = string(vb)
+					for i := range vb {
+						vb[i] = s.wipePat
+					}
+				}
+			} else if consumer == pageConsScan {
 				ok = iter.Scan(&r.id, &r.v)
 			} else {
 				m := map[string]interface{}{}
@@ -923,7 +1078,10 @@ func (pr *pageRun) iterate(t *kernel.Task, s *pageScript, g *pageExec, q *gocql.
 				break
 			}
 			record(r)
-			pr.checkIterState(s, iter, len(got)-1)
+			pr.checkIterState(s, iter, len(got)-1, wiped)
+			if where, at := s.wipeRows[len(got)-1]; at && s.wipe && len(got) <= len(s.expect) {
+				pr.checkpoint(s, g, iter, s.pageOf(len(got)-1), where, wiped)
+			}
 		}
 		err = iter.Close()
 	case pageConsScanner:
@@ -940,7 +1098,16 @@ func (pr *pageRun) iterate(t *kernel.Task, s *pageScript, g *pageExec, q *gocql.
 				break
 			}
 			var r pageRow
-			if serr := sc.Scan(&r.id, &r.v); serr != nil {
+			if s.wipe && s.wipeBlob {
+				if serr := sc.Scan(&r.id, &vb); serr != nil {
+					r.v = "scan error: " + serr.Error()
+				} else {
+					r.v = string(vb)
+					for i := range vb {
+						vb[i] = s.wipePat
+					}
+				}
+			} else if serr := sc.Scan(&r.id, &r.v); serr != nil {
 				r.v = "scan error: " + serr.Error()
 			}
 			record(r)
@@ -967,7 +1134,10 @@ func (pr *pageRun) iterate(t *kernel.Task, s *pageScript, g *pageExec, q *gocql.
 		}
 	}
 	if s.manual && complete && err == nil {
-		pr.checkIterState(s, iter, -1)
+		pr.checkIterState(s, iter, -1, wiped)
+	}
+	if emptyAtIter && complete && (err == nil || len(got) > 0) {
+		k.Violate("C15", "C15/wrong-exposed-page-state", "query %s: right after Iter() returned, Iter.PageState() was empty, yet page %d came through (%d rows returned, error %v) and carried %q", s.token, firstPage, len(got), err, s.states[firstPage])
 	}
 	k.Rec("end %s x%d rows=%d complete=%v abandoned=%v %s", s.token, g.idx+1, len(got), complete, abandoned, ErrClass(err))
 	clean := pr.verdict(s, g, consumer, got, err, complete)
@@ -984,14 +1154,79 @@ func (pr *pageRun) iterate(t *kernel.Task, s *pageScript, g *pageExec, q *gocql.
 	return complete || abandoned
 }
 
+// checkpoint is the consumer that checkpoints its progress and wipes the buffers it was
+// handed (task goroutine; where and with what is the script's, drawn on the root): it takes
+// Iter.PageState() while the Iter stands on page p, keeps a private copy - which must be,
+// byte for byte, the state page p carried - and overwrites the returned slice in place; the
+// custom payload and the warnings of the page, which the Iter hands out without copying,
+// are overwritten too. None of this is the driver's business: the following page must still
+// be asked for with the state the node sent (checked where the request arrives). It returns
+// true when the state was empty right after Iter() although the page carries one.
+func (pr *pageRun) checkpoint(s *pageScript, g *pageExec, iter *gocql.Iter, p int, where string, wiped map[int]bool) (emptyAtIter bool) {
+	k := pr.k
+	st := iter.PageState()
+	keep := append([]byte(nil), st...)
+	want := s.states[p]
+	switch {
+	case bytes.Equal(keep, want):
+	case wiped[p] && bytes.Equal(keep, s.wiped(want)):
+		// what this consumer wrote there at an earlier row of the page
+	case where == "after-iter" && len(keep) == 0:
+		emptyAtIter = true
+	default:
+		k.Violate("C15", "C15/wrong-exposed-page-state", "query %s (%s): the copy the consumer took of Iter.PageState() while on page %d is %q, the page carried %q", s.token, where, p, keep, want)
+	}
+	for i := range st {
+		st[i] = s.wipePat
+	}
+	if len(st) > 0 {
+		wiped[p] = true
+		k.Probe("pagestate-wiped:" + where)
+		if !s.manual {
+			pr.mu.Lock()
+			sent := g.maxReq > p
+			pr.mu.Unlock()
+			switch {
+			case sent:
+				k.Probe("pagestate-wiped-after-next-page-request")
+			case s.prefetchSet && s.prefetch == 0:
+				k.Probe("pagestate-wiped-before-next-page-request:prefetch-0")
+			default:
+				k.Probe("pagestate-wiped-before-next-page-request")
+			}
+		}
+	}
+	touched := false
+	for _, v := range iter.GetCustomPayload() {
+		for i := range v {
+			v[i] = s.wipePat
+			touched = true
+		}
+	}
+	ws := iter.Warnings()
+	for i := range ws {
+		ws[i] = ""
+		touched = true
+	}
+	if touched {
+		k.Probe("page-payload-and-warnings-wiped")
+	}
+	return emptyAtIter
+}
+
 // checkIterState checks the documented accessors after row idx (index into s.expect) was
 // returned by Iter.Scan / Iter.MapScan (which update the Iter in place); idx -1 = at the
 // clean end of a manual query.
-func (pr *pageRun) checkIterState(s *pageScript, iter *gocql.Iter, idx int) {
+func (pr *pageRun) checkIterState(s *pageScript, iter *gocql.Iter, idx int, wiped map[int]bool) {
 	k := pr.k
+	// a state this consumer has wiped holds what it wrote (or, should the accessor hand out
+	// copies, still what the page carried)
+	same := func(got []byte, p int) bool {
+		return bytes.Equal(got, s.states[p]) || wiped[p] && bytes.Equal(got, s.wiped(s.states[p]))
+	}
 	if idx < 0 {
 		want := s.states[s.manualPage]
-		if got := iter.PageState(); !bytes.Equal(got, want) {
+		if got := iter.PageState(); !same(got, s.manualPage) {
 			k.Violate("C15", "C15/wrong-exposed-page-state", "manual paging of %s, page %d: Iter.PageState() = %q, the page carried %q", s.token, s.manualPage, got, want)
 		}
 		if got := iter.NumRows(); got != len(s.pages[s.manualPage]) {
@@ -1014,7 +1249,7 @@ func (pr *pageRun) checkIterState(s *pageScript, iter *gocql.Iter, idx int) {
 	if got, want := iter.WillSwitchPage(), lastOfPage && p < s.last(); got != want {
 		k.Violate("C15", "C15/wrong-willswitchpage", "query %s: after row %d (page %d of %d, last row of the page: %v) Iter.WillSwitchPage() = %v", s.token, idx, p, len(s.pages), lastOfPage, got)
 	}
-	if got := iter.PageState(); !bytes.Equal(got, s.states[p]) {
+	if got := iter.PageState(); !same(got, p) {
 		k.Violate("C15", "C15/wrong-exposed-page-state", "query %s: while on page %d Iter.PageState() = %q, the page carried %q", s.token, p, got, s.states[p])
 	}
 }
@@ -1103,6 +1338,19 @@ func (pr *pageRun) verdict(s *pageScript, g *pageExec, consumer int, got []pageR
 			}
 			if len(s.pages) > 1 {
 				k.Probe("multi-page-complete:" + pageConsNames[consumer])
+				if s.wipe {
+					k.Probe("multi-page-complete-with-wiping-consumer")
+				}
+				if s.effPageSize() == 0 {
+					// the client asked for no paging, the node paged, the driver followed
+					if s.pageSizeSet {
+						k.Probe("multi-page-complete-without-page-size:query")
+					} else {
+						k.Probe("multi-page-complete-without-page-size:session")
+					}
+				}
+			} else if s.effPageSize() > 0 {
+				k.Probe("single-page-complete-with-page-size")
 			}
 		}
 		return true
@@ -1144,6 +1392,13 @@ func runPage(e *Env) {
 	coalesce := time.Duration(0)
 	nTasks := 1 + tp.Next(4)
 	closeRun := !e.NoFaults && tp.Chance(1, 4) // server-side connection closes at arbitrary moments
+	// a session configured without paging (ClusterConfig.PageSize 0): queries that set no
+	// page size of their own go out without one; this node pages all the same
+	sessPageSize := 5000
+	if tp.Chance(1, 4) {
+		sessPageSize = 0
+	}
+	e.Note("sessPageSize", sessPageSize)
 	e.Note("proto", proto)
 	e.Note("numConns", numConns)
 	e.Note("timeout", timeout.String())
@@ -1154,6 +1409,7 @@ func runPage(e *Env) {
 	gocql.VerifDisableControlConn(cfg, true)
 	cfg.ProtoVersion = proto
 	cfg.NumConns = numConns
+	cfg.PageSize = sessPageSize
 	cfg.Timeout = timeout
 	cfg.ConnectTimeout = 500 * time.Millisecond
 	cfg.WriteCoalesceWaitTime = coalesce
@@ -1176,7 +1432,7 @@ func runPage(e *Env) {
 		nq := 1 + tp.Next(4)
 		for oi := 0; oi < nq; oi++ {
 			qid++
-			s := pr.drawScript(tp, ti, oi, qid, proto)
+			s := pr.drawScript(tp, ti, oi, qid, proto, sessPageSize)
 			plan[ti] = append(plan[ti], s)
 			k.Rec("script %s", s.describe())
 		}
